@@ -282,6 +282,13 @@ class ImageViewerState(MatplotlibDataViewerState):
                 if not forced:
                     self._on_yatt_world_change(forced=True)
 
+        else:
+
+            # No world attribute can be selected (e.g. the reference data was
+            # removed), so the pixel attribute should not keep pointing to a
+            # component of a dataset that is no longer shown.
+            self.x_att = None
+
     @defer_draw
     def _on_yatt_world_change(self, *args, forced=False):
 
@@ -307,6 +314,10 @@ class ImageViewerState(MatplotlibDataViewerState):
 
             if not forced:
                 self._on_xatt_world_change(forced=True)
+
+        else:
+
+            self.y_att = None
 
     def _set_reference_data(self):
         if self.reference_data is None:
